@@ -92,6 +92,38 @@ class Moody(Tree):
         return (self.SEED, (old, (committed, new)))
 
 
+class NeedsArg(Merge11):
+    """resolvable; `__init__` has a REQUIRED parameter: resolution must build its throw-away instance
+    with `klass.__new__(klass, *newargs)`, never by calling the class"""
+    CID = 16
+    SEED = 16
+
+    def __init__(self, v):
+        self.v = v
+
+
+class NeedsArgNew(NeedsArg):
+    """the same with `__getnewargs__` (records carry a (class, args) tuple)"""
+    CID = 17
+    SEED = 17
+
+    def __getnewargs__(self):
+        return ()
+
+
+INITS = []          # constructor runs of SideEffect
+
+
+class SideEffect(Merge11):
+    """resolvable; its constructor has a visible side effect (must not run during resolution)"""
+    CID = 18
+    SEED = 18
+
+    def __init__(self, v=0):
+        INITS.append(1)
+        self.v = v
+
+
 class NewArgs(Merge11):
     """class with `__getnewargs__`: references to its instances are pickled as a bare oid and its
     records carry a (class, args) tuple as meta data"""
@@ -123,6 +155,9 @@ TABLE = {
     13: ('c10_classes', 'NewArgs', 1, 1, 'v13'),
     14: ('c10_classes', 'PlainNewArgs', 1, 0, 'e'),
     15: ('c10_classes', 'Moody', 1, 1, 'm15'),
+    16: ('c10_classes', 'NeedsArg', 1, 1, 'v16'),
+    17: ('c10_classes', 'NeedsArgNew', 1, 1, 'v17'),
+    18: ('c10_classes', 'SideEffect', 1, 1, 'v18'),
     9: ('c10_classes', 'Gone', 0, 0, 'e'),
     8: ('nosuchmodule_c10', 'Gone', 0, 0, 'e'),
     20: ('ZODB.tests.MinPO', 'MinPO', 1, 0, 'e'),
